@@ -144,5 +144,5 @@ func run(c Case, o *lib.Obs) error {
 }
 
 func TestC01(t *testing.T) {
-	lib.Check(t, spec, lib.Scale(16, 1600), gen, run)
+	lib.Check(t, spec, lib.Scale(16, 480), gen, run)
 }
